@@ -61,6 +61,17 @@ PROPS = {
                                      'SFC_FILE_TRUNCATE is exercised on the path route only (virtual I/O has no truncate callback)'],
         floor={'quick': 500, 'thorough': 1000},
     ),
+    'C13': dict(
+        runs=[dict(src='c13_chunks.c')],
+        level='exploration',
+        rule=('case = (container in WAV/WAVEX/RF64/AIFF/CAF, encoding, channels, chunk count from a list crossing every capacity step 0..200, '
+              'id scheme {distinct, duplicates, 1-4 chars, reserved ids, random}, payload-length scheme {0,1,2,3,4,5,7,8,255,256,1023,4095 | random | fixed | '
+              'occasional 20-64 KiB}, strings interleaved, optional chunk after audio). set -> write audio -> close -> re-open -> full iteration, '
+              'iteration by every id, short-buffer gets, absent id, audio compare. distinct = hash of those parameters'),
+        assumptions=COMMON_ASSUME + ['stored size may exceed the set size by up to 3 zero pad bytes (container alignment)',
+                                     'standard chunks of the container that appear during full iteration are skipped, custom chunks must appear in order'],
+        floor={'quick': 300, 'thorough': 1000},
+    ),
 }
 
 NOT_APPLICABLE = {}
